@@ -117,7 +117,7 @@ fn fixed_messages(addr: u16) -> Vec<RefMsg> {
 pub fn run(ctx: &Ctx) -> Outcome {
     let n_random = ctx.size(2_000_000, 10_000_000);
     let rand_shards = 32usize;
-    let report = run_sharded(ctx, 256 + 1 + rand_shards, |shard, rep| {
+    let mut report = run_sharded(ctx, 256 + 1 + rand_shards, |shard, rep| {
         let mut inj = Injective { seen: HashMap::new() };
         if shard < 256 {
             let hi = (shard as u16) << 8;
@@ -226,6 +226,12 @@ pub fn run(ctx: &Ctx) -> Outcome {
             }
         }
     });
+    {
+        // the same calls from a thread-local destructor while a thread exits (see exitprobe.rs)
+        let mut at_exit = Report::new();
+        crate::exitprobe::check("message", MON, &mut at_exit);
+        report.merge(at_exit);
+    }
 
     let mut floors = vec![
         floor("all 65536 addresses swept", report.get("addresses_swept") == 65_536, report.get("addresses_swept")),
